@@ -16,17 +16,31 @@ def flat(s):
     return " ".join(s.split())
 
 
+def _string_end(src, p):
+    """src[p] is a quote: index just after the closing quote of the string / character literal"""
+    q, c = p + 1, src[p]
+    while q < len(src) and src[q] != c:
+        q += 2 if src[q] == "\\" else 1
+    if q >= len(src):
+        raise Unaccounted("unterminated literal %r" % src[p:p + 30])
+    return q + 1
+
+
 def _partner(src, i):
     o = src[i]
     c = {"(": ")", "{": "}", "[": "]"}[o]
-    d = 0
-    for p in range(i, len(src)):
+    d, p = 0, i
+    while p < len(src):
+        if src[p] in "\"'":
+            p = _string_end(src, p)
+            continue
         if src[p] == o:
             d += 1
         elif src[p] == c:
             d -= 1
             if d == 0:
                 return p
+        p += 1
     raise Unaccounted("unbalanced %s in %r" % (o, flat(src[i:i + 60])))
 
 
@@ -60,7 +74,9 @@ def _statement_end(src, p):
     q = p
     while q < len(src):
         c = src[q]
-        if c in "([{":
+        if c in "\"'":
+            q = _string_end(src, q)
+        elif c in "([{":
             q = _partner(src, q) + 1
         elif c == ";":
             return q + 1
